@@ -426,7 +426,10 @@ int lltd_port_get_mtu(void *ctx, size_t *out) {
     if (getter_fails(n, G_MTU)) {
         note_getfail(G_MTU);
         // how a port fails to tell the MTU: error with the out parameter untouched / zeroed / holding a small leftover, or "success" with 0
-        switch ((n->cfg.attr_seed >> 2) % 6) { case 1: *out = 0; return -1; case 2: *out = 0; return 0; case 3: *out = 16; return -1; case 4: *out = 9000; return -1; /* ioctl style: the (stale) field is copied out, then the error is returned */ case 5: *out = 65535; return -1; default: return -1; }
+        // the error code is the port's business (-1, a positive errno, INT_MIN ...); the leftover can be anything, (size_t)-1 included (an ifr_mtu of -1 widened)
+        int rc = fail_rc(n);
+        bool wild = ((n->cfg.attr_seed >> 10) & 3) == 3;
+        switch ((n->cfg.attr_seed >> 2) % 6) { case 1: *out = 0; return rc; case 2: *out = 0; return 0; case 3: *out = wild ? (size_t)-1 : 16; return rc; case 4: *out = wild ? ((size_t)-1 >> 1) : 9000; return rc; /* ioctl style: the (stale) field is copied out, then the error is returned */ case 5: *out = 65535; return rc; default: return rc; }
     }
     *out = n->cfg.mtu;
     return 0;
@@ -880,6 +883,7 @@ void World::handle_delivery(int node, const Frame &f, int op_index, const Op *op
         free(copy);
     }
     glue_view_get(n.glue, &d.after);
+    d.t_end = handling_base + sleep_accum;
     if (verbose) {
         std::string l = "  rx node=" + std::to_string(node) + " t=" + std::to_string(d.t) + " len=" + std::to_string(d.len) + (d.len >= 32 ? " tos=" + std::to_string(n.rxbuf[wire::OFF_TOS]) + " opcode=" + std::to_string(n.rxbuf[wire::OFF_OP]) : std::string(" (short)")) +
                         " allocs=" + std::to_string(alloc_index) + (d.alloc_fault_fired ? " ALLOC-FAULT" : "") + (d.get_fault_fired ? " GETTER-FAULT" : "") + (n.hidden ? " [twin]" : "");
@@ -1181,7 +1185,7 @@ void World::exec_op(int i) {
                 if (nodes[op.a[0]]->twin >= 0 && nodes[nodes[op.a[0]]->twin]->glue) glue_set_mac(nodes[nodes[op.a[0]]->twin]->glue, m.a);
                 note("mac_change");
             }
-            if ((op.a[2] & 0x80000) && nodes[op.a[0]]->ctx_gen < 1023 && nodes[op.a[0]]->twin < 0) { // hot-plug: the interface goes away and comes back; the daemon builds new state under a NEW context pointer
+            if ((op.a[2] & 0x80000) && nodes[op.a[0]]->ctx_gen < 8191 && nodes[op.a[0]]->twin < 0) { // hot-plug: the interface goes away and comes back; the daemon builds new state under a NEW context pointer
                 Node &x = *nodes[op.a[0]];
                 cur = &x; ledger_tag = 1; handling_base = now; sleep_accum = 0;
                 glue_destroy(x.glue);
